@@ -729,6 +729,7 @@ func main() {
 			r.Sample(map[string]any{"caddyfile": text, "impl": impl})
 		}
 	}
+	jwksStage(r)
 	r.DriverLines = c.Driver.N
 	c.Driver.Close()
 	r.Write(os.Args[1])
